@@ -520,6 +520,20 @@ def conc_configs(ctx):
         init = init_lru if lru else init_cache
         for progs in (line_progs if not ctx.quick else line_progs[:3]):
             add(lru, progs, "line", ctx.pick(2, 3), init)
+    # the simple cache's periodic sweep: one entry already expired and a sweep due, so the
+    # first locked operation sweeps while another thread re-stores / reads the same key
+    init_sweep = [("put", 0, 1), ("put", 1, 2), ("tick", 1.5)]
+    sweep_progs = [
+        [[("get", 1)], [("put", 0, 2), ("get", 0)]],
+        [[("put", 2, 2)], [("put", 0, 2), ("get", 0)]],
+        [[("get", 0)], [("put", 0, 1), ("tick", 1), ("get", 0)]],
+    ]
+    for progs in sweep_progs:
+        add(False, progs, "line", ctx.pick(2, 3), init_sweep)
+        add(False, progs, "sync", 4, init_sweep)
+    init_lru_exp = [("put", 0, 1), ("put", 1, 2), ("tick", 1.5)]
+    for progs in sweep_progs[:2] + [[[("get", 0)], [("put", 0, 2), ("put", 2, 2), ("get", 0)]]]:
+        add(True, progs, "line", ctx.pick(2, 3), init_lru_exp)
     if not ctx.quick:
         add(True, [[("get", 0), ("put", 2, 2)], [("put", 0, 2), ("get", 1)], [("get", 0), ("flush", 1)]], "sync", 3, init_lru)
         add(False, [[("get", 0), ("put", 2, 2)], [("put", 0, 2), ("get", 1)], [("tick", 1), ("get", 0)]], "sync", 3, init_cache)
